@@ -17,12 +17,12 @@ import (
 // ---- HttpListener (C12): admission by listener profile ----
 
 const (
-	httpUA       = "Mozilla/5.0 (Verif; rv:1.0)"
-	respPlain    = "X-Resp: r1"
-	respColon    = "Location: http://h:80/p"
-	peerV4       = "192.0.2.7"
-	peerV6       = "2001:db8::17"
-	xffValue     = "203.0.113.9"
+	httpUA    = "Mozilla/5.0 (Verif; rv:1.0)"
+	respPlain = "X-Resp: r1"
+	respColon = "Location: http://h:80/p"
+	peerV4    = "192.0.2.7"
+	peerV6    = "2001:db8::17"
+	xffValue  = "203.0.113.9"
 )
 
 func RunHTTP(behs [][]Step, tr *Trace, env Env, sum *Summary) {
